@@ -31,6 +31,7 @@ RULE = ('directory = one PEL per id in a 12-value alphabet (PLID != EID) + share
 ASSUMPTIONS = ['file names follow the BMC convention <timestamp>_<entry id as 8 upper-case hex digits>']
 
 IDS = [0, 1, 0xA, 0xF, 0x10, 0xABC, 0x0FFFFFFF, 0x10000000, 0x50000001, 0x5000000A, 0xABCDEF01, 0xFFFFFFFF]
+CODE32 = 'B7009999' + '0123456789ABCDEFGHIJKLMN'
 CODES = ['BD8D1234', 'BD8D1235', '11001234', 'B7001111', 'BC8A0ABC']
 
 
@@ -57,6 +58,8 @@ def directory():
             pels.append({'plid': 0x0000B000 + j, 'eid': 0x61000000 + j, 'obmc': 200 + j, 'code': CODES[j % len(CODES)],
                          'uh': {'sev': sev, 'flags': flags}})
             j += 1
+    # a reference code that fills all 32 characters of its field
+    pels.append({'plid': 0x0000B100, 'eid': 0x61000100, 'obmc': 300, 'code': CODE32, 'uh': {'sev': 0x40, 'flags': 0xA000}})
     out = []
     for i, m in enumerate(pels):
         secs = [{'t': 'UD', 'comp': 0xABCD, 'payload': '%02x' % i}]
@@ -321,6 +324,12 @@ def run_chunk(chunk):
                 _do(res, d, {'q': 'src', 'arg': s})
             for s in ('BD8D', '1100', 'B7'):
                 _do(res, d, {'q': 'src', 'arg': s, 'hex': True})
+            # the length boundary of the search string: the whole 32-character field, one less at either end, one more
+            for s in (CODE32, CODE32[:31], CODE32[1:], CODE32[8:], CODE32[:16]):
+                _do(res, d, {'q': 'src', 'arg': s})
+            _do(res, d, {'q': 'src', 'arg': CODE32 + 'X', 'malformed': True})
+            _do(res, d, {'q': 'srcx', 'arg': [CODE32]})
+            _do(res, d, {'q': 'srcx', 'arg': [CODE32[:31]]})
         elif k == 'srcx':
             for n in range(len(CODES) + 1):
                 for sub in itertools.combinations(CODES, n):
